@@ -451,7 +451,8 @@ REJECT = [
     ('odd pair count', 'CX 0 1 2'), ('odd pair count', 'MXX 0'), ('pair repeats a target', 'CX 0 0'), ('pair repeats a target', 'SWAP 3 3'),
     ('misplaced combiner', 'MPP X0*'), ('misplaced combiner', 'MPP *X0'), ('misplaced combiner', 'MPP X0**X1'), ('misplaced combiner', 'MPP X0 * X1 *'),
     ('misplaced combiner', 'H 0*1'), ('zero repeat count', 'REPEAT 0 {\nH 0\n}'),
-    ('unbalanced braces', 'REPEAT 2 {\nH 0'), ('unbalanced braces', 'H 0\n}'), ('unbalanced braces', 'REPEAT 2 {\nREPEAT 3 {\nH 0\n}'),
+    ('unbalanced braces', 'REPEAT 2 {\nH 0'), ('unbalanced braces', 'H 0\n}'), ('unbalanced braces', '}'), ('unbalanced braces', 'X 0\nM 0\n}\nX 1\nM 1 0\n'),
+    ('unbalanced braces', 'REPEAT 2 {\nH 0\n}\n}\nH 1'), ('unbalanced braces', 'H 0\n }  \nH 1'), ('unbalanced braces', 'REPEAT 2 {\nREPEAT 3 {\nH 0\n}'),
     ('missing brace', 'REPEAT 2\nH 0\n}'), ('unexpected brace', 'H 0 {\n}'), ('wrong target kind', 'H rec[-1]'), ('wrong target kind', 'H X0'),
     ('wrong target kind', 'DETECTOR 0'), ('wrong target kind', 'M rec[-1]'), ('wrong target kind', 'H !0'),
     ('wrong target kind', 'CX !0 1'), ('wrong target kind', 'TICK 0'), ('wrong target kind', 'MPP 0'), ('wrong target kind', 'OBSERVABLE_INCLUDE(0) 1'),
@@ -480,8 +481,6 @@ def rejections(rep, asan, rng, names):
                 continue
             rep.count(('c07-reject', rule, text, entry), nontrivial=True)
             if not (out and out[0].startswith('ERR')):
-                if entry == 'stop_asap' and rule in ('unbalanced braces',) and text.endswith('}'):
-                    continue       # incremental reading stops before the stray brace is consumed
                 rep.violation('Circuit parser (%s)' % entry, 'accept-invalid', text,
                               'text violating the documented rule "%s" was accepted' % rule, 'an error', (out or ['?'])[0][:200])
 
